@@ -12,12 +12,12 @@ def prop(pid, cat, tech, text, note, ref):
 CORR = ("Tie to the code: Rust harness built from /repo's working tree (debug+release, hooks on) and the extracted Coq model run the same seeded, relation-aware histories; the property's view of every observation is compared and the property's own statement (monitors extracted from coq/theories/Monitor.v) is evaluated on the implementation's states. ")
 TB = ("Trusted: Coq 8.16.1 kernel + VM, no axioms (Print Assumptions closed for every pinned theorem); the hand-written model coq/theories (validated by the correspondence run, which samples); extraction (ExtrOcamlBasic only) + OCaml glue; Rust harness, rustc/cargo; tools/vlib.py. ")
 
-REACH = "Theorems are stated over EVERY valid history from the empty arena (induction over the operation list; invariant WF = Repr /\\ AllocOK of coq/theories/Props.v, preserved by every valid call: proofs/Assembly.v step_WF). Release semantics (dbg=false); debug builds by correspondence. "
+REACH = "Theorems are stated over EVERY valid history from the empty arena (induction over the operation list; invariant WF = Repr /\\ AllocOK of coq/theories/Props.v, preserved by every valid call: proofs/Assembly.v step_WF). Stated for release semantics (dbg=false) and transferred to debug builds by proofs/DebugProofs.v (step true w o = step false w o on every valid call); both profiles are also run by the correspondence check. "
 prop("C01", "proof", "Coq proof: representation invariant (ghost ordered forest) preserved by every operation => LinksOK on every reachable arena; + correspondence and the same statement as executable monitor on implementation states", "Theorems C01_links_wellformed / C01_monitor_silent / C01_represents_forest (coq/props/C01.v): after any valid history the arena satisfies LinksOK (the property text over the arena's fields) and the executable monitor c01_check is silent. " + REACH + CORR, TB, "6.1")
 prop("C02", "proof", "Coq proof: depth relation in the invariant => finite duplicate-free walks bounded by the number of live nodes; no valid call diverges; + bounded walks and timeouts on the implementation", "Theorems C02_* (coq/props/C02.v): parent / next / prev walks from every live node of every reachable arena are finite NoDup paths no longer than the number of live nodes; every iterator returns Ok with NoDup output; no valid call returns Diverge and the only panics are the documented refusals. " + REACH + CORR, TB, "6.2")
 prop("C03", "proof", "Coq refinement proof: each successful insert/detach/append_value commutes with list surgery on the abstract forest; arena equality for no-op reinsert and append_value = new_node;append", "Theorems C03_* (coq/props/C03.v): C03_insert / C03_detach / C03_append_value (Repr after = f_op of Repr before, same_shape), C03_reinsert_noop and C03_append_value_eq as arena equalities, C03_*_means spelling out the list surgery. " + REACH + CORR, TB, "6.3")
 prop("C04", "proof", "Coq refinement proof: remove = substitute x by its children; remove_subtree removes exactly the pre-order of x", "Theorems C04_* (coq/props/C04.v): C04_remove (f_remove, removed set grows by exactly x), C04_remove_subtree (f_remove_subtree, removed set grows by exactly the pre-order D of x). " + REACH + CORR, TB, "6.4")
-prop("C05", "proof", "Coq proof: Err <-> impossible (decidable), reason applies, arena unchanged; unchecked panics iff checked errs; no other valid call panics or diverges", "Theorems C05_* (coq/props/C05.v) for the eight entry points and every pair of usable ids in every reachable world. Release semantics are proved; debug-assertion builds are decided by the correspondence runs (debug + release, every relation class incl. removed ids). " + REACH + CORR, TB + "The forall-dbg version (no debug assertion fires) is not yet proved.", "6.5")
+prop("C05", "proof", "Coq proof: Err <-> impossible (decidable), reason applies, arena unchanged; unchecked panics iff checked errs; no other valid call panics or diverges", "Theorems C05_* (coq/props/C05.v) for the eight entry points and every pair of usable ids in every reachable world. C05_debug_and_release_alike / C05_debug_histories: the debug build returns exactly what the release build returns on every valid call (no debug assertion, triangle check or overflow check ever fires), so all theorems transfer to debug builds. " + REACH + CORR, TB, "6.5")
 prop("C06", "proof", "Coq proof: allocation invariant over worlds (NoDup issued, is_removed exact, stamps in i16) for histories of any length; stamp arithmetic over the whole i16 range; exhaustive 65536-input comparison and 33000-cycle wrap history on the implementation", "Theorems C06_* (coq/props/C06.v): ids unique, is_removed exact and total, removed forever (absent clear), no overflow, generation strictly increases per cycle (forall dbg), exhausted slot retired. Tie: NodeStamp functions compared over ALL 65536 inputs in debug and release; one slot recycled 33000+ times across the end of its counter. " + REACH + CORR, TB, "6.6")
 prop("C07", "proof", "Coq proof: free-list ghost invariant; new_node pops the head or grows by one and touches no other slot; free_node appends exactly when reusable", "Theorems C07_* (coq/props/C07.v) in every reachable world. Tie: allocation monitors (slot not live, others untouched, count rule) and the free list drained by allocations == reusable removed slots. " + REACH + CORR, TB, "6.7")
 prop("C08", "proof", "Coq proof: payload frame lemma per step and multiset accounting (Permutation) of introduced = dropped ++ stored over whole histories", "Theorems C08_* (coq/props/C08.v). Tie: payload tokens with identity and a logging Drop impl: payload behind every live id after every step, drop log == payloads ever held at the end of every history. " + REACH + CORR, TB + "Rust drop semantics is modelled (free_node/clear/write return what they drop).", "6.8")
@@ -27,7 +27,7 @@ prop("C11", "proof", "Coq proof of the index/stamp logic of every lookup path (p
 prop("C12", "proof", "Coq proof: removed slots have no links (invariant), links of live nodes name live nodes, all nine entry points refuse a removed id atomically", "Theorems C12_* (coq/props/C12.v). " + REACH + "Monitors: removed slots have no links (every state), no live link names a removed id (c01), all nine entry points refuse a removed id in either position without changing the arena. " + CORR, TB, "6.12")
 prop("C13", "proof", "Coq proof (partial): behaviour is a function of the arena value alone, clear() continues exactly like a new arena, capacity guarantees for any growth policy; determinism and clone-independence experiments on the implementation", "Theorems C13_* (coq/props/C13.v). Same seeded histories executed twice -> identical observations; fork/swap histories: a clone compares equal and the value not in use never changes; clear() -> empty arena and model continues from init; reserve/with_capacity/clear capacity guarantees on the implementation. " + CORR, TB, "6.13")
 prop("C14", "proof", "Coq proof: writer state machine = render specification (induction on rose trees, all chunkings), + byte-exact correspondence", "Theorem C14_print (coq/props/C14.v): for every tree shape, every start node, every payload rendering given as an arbitrary chunking (non-empty, not ending in newline, interior empty lines allowed), four modes, debug and release: the IndentWriter machine outputs exactly `render`, never panics, never exhausts fuel. Tie: byte-exact comparison of the four outputs from every live node with generated multi-line / multi-chunk / UTF-8 renderings, and with `render` computed from the dump. " + CORR, TB, "6.14")
-prop("C15", "exploration", "Coq model of the macro's flattening loop + generated program, compared with real tree! invocations compiled by rustc", "A batch of random tree literals (shapes, widths, depths, both root forms, `=> {}` and trailing-comma spellings, side-effecting expressions) is compiled against /repo and the returned root, evaluation log and full arena dump are compared with MacroModel.tree_macro_full. Theorem (flatten+interpret = graft of the literal) in progress.", TB + "syn parsing, quote! splicing and autoref dispatch are modelled, not verified.", "6.15")
+prop("C15", "proof", "Coq proof: the macro's flatten-and-interpret stack machine = plain recursion on the literal, which builds the literal's tree (induction on literals); real tree! invocations compiled by rustc and compared", "Theorems C15_macro_is_what_is_written and C15_builds_the_literal (coq/props/C15.v) for every literal forest, both root forms, in every reachable world: no panic, returns the root, evaluation log = root expression then all node expressions in textual order each once, created nodes shaped like the literal and appended after the root's existing children, nothing else changes. Tie: a batch of random tree literals (shapes, widths, depths, both root forms, `=> {}` and trailing-comma spellings, side-effecting expressions, arena expression with a side effect) is compiled against /repo and root id, evaluation log and full arena dump are compared with MacroModel.tree_macro_full.", TB + "syn parsing, quote! splicing and autoref dispatch are modelled, not verified.", "6.15")
 prop("C16", "proof", "Coq proof: decode (encode a ++ rest) = Some (a, rest) for every arena (structural induction), + token-level correspondence", "Theorems C16_roundtrip / C16_injective / C16_continue (coq/props/C16.v) over the serde data-model view of the derived impls, for every arena value with i16 stamps. Tie: the implementation's token stream (in-harness Serializer) must equal `encode` of the dumped arena, deserialize(serialize(a)) == a, and histories continue on the round-tripped copy. " + CORR, TB + "serde_derive's expansion is modelled.", "6.16")
 prop("C17", "translation_validation", "translator regenerates the cfg-gate inventory from the sources; Coq theorem that every feature gate is of an additive kind; same battery under every feature set vs one model", "Static half: coq/gen/GenCfg.v is regenerated from /repo on every run and C17_gates_additive re-proved over it (fail-closed on unclassifiable gates). Dynamic half: the same battery of histories (core/iters/print) is executed under 7 (quick) / all 16 (thorough) feature sets and each is compared line by line with the model; par_iter() vs iter().", TB + "rustc's meaning of cfg is trusted; tools/translate.py is trusted.", "6.17")
 prop("C18", "proof", "Coq: Send/Sync derivation over field types regenerated from the sources + schedule-independence theorem for readers; rustc assert_send_sync and 8-thread runs as oracle", "Theorems C18_* (coq/props/C18.v): auto-trait derivation for Arena/Node/NodeId/NodeEdge and the nine iterators over coq/gen/GenTypes.v (regenerated every run), no unsafe / interior-mutability tokens, and for EVERY schedule each reader's observations equal those of the reader running alone. Partial: memory-model data-race freedom is delegated to safe Rust. Tie: rustc checks assert_send_sync instantiations; 8 threads over one &Arena and par_iter compared with a single thread.", TB + "auto-trait rules (AutoTraits.v) are the modelled meaning of rustc's inference.", "6.18")
